@@ -234,9 +234,10 @@ def check(outdir, workers, limit=None):
         if mid in done:
             continue
         m = ms[mid]
-        pids = [p for p in sorted(src) if m['file'] in src[p]]
-        # the properties anchored in the file first
-        pids.sort(key=lambda p: (p not in m['properties'], p))
+        # the properties anchored in the file (C01, which every handler, template and control contract serves, when there is none)
+        pids = [p for p in m['properties'] if m['file'] in src.get(p, ())]
+        if not pids and m['file'] in src.get('C01', ()):
+            pids.append('C01')
         todo.append((m, pids, max(2, 16 // workers)))
     if limit:
         todo = todo[:int(limit)]
